@@ -456,6 +456,7 @@ func (vc *VC) heap(st *State, key string, sort Sort) Term {
 		vc.heaps0[key] = h0
 		vc.heapSort[key] = sort
 		vc.heapInvariant(h0, Term{"alloc0", SInt}, True)
+		vc.heapRange(key, h0, True)
 	}
 	return h0
 }
@@ -494,8 +495,32 @@ func (vc *VC) linkHeaps(key string, newH, prev Term) {
 		Eq(App(inner, fn, prev, ss, ii), Select(Select(prev, SBase(ss)), Add(SOff(ss), ii)))))
 }
 
+// linkHeapsBack is the converse term introduction for heaps havocked by a call: a read in the
+// heap before the call makes the read of the same cell after the call available, so that facts
+// quantified over the post-call heap can be instantiated at cells named in the pre-call heap.
+func (vc *VC) linkHeapsBack(key string, newH, prev Term) {
+	if !isHeapSort(newH.Sort) || newH.S == prev.S || strings.HasPrefix(newH.S, "(") || strings.HasPrefix(prev.S, "(") {
+		return
+	}
+	inner := Sort(string(newH.Sort)[len("(Array Int (Array Int ") : len(newH.Sort)-2])
+	fn := "rd!" + smtName(key)
+	ss, ii := Term{"s?", SSlice}, Term{"i?", SInt}
+	vc.assumeGlobal(Forall([]Term{ss, ii}, [][]Term{{App(inner, fn, prev, ss, ii)}},
+		Eq(App(inner, fn, newH, ss, ii), Select(Select(newH, SBase(ss)), Add(SOff(ss), ii)))))
+}
+
 // heapInvariant asserts the typing invariant of a heap: slices stored in it are
 // well formed and every identity stored is already allocated.
+// heapRange asserts the value range of the cells of byte arrays.
+func (vc *VC) heapRange(key string, h Term, pc Term) {
+	if key != "E:u8" || h.Sort != HeapSort(SInt) {
+		return
+	}
+	b, i := Term{"b?", SInt}, Term{"i?", SInt}
+	cell := Select(Select(h, b), i)
+	vc.assumeGlobal(Implies(pc, Forall([]Term{b, i}, [][]Term{{cell}}, And(Le(IntLit(0), cell), Le(cell, IntLit(255))))))
+}
+
 func (vc *VC) heapInvariant(h Term, alloc Term, pc Term) {
 	switch h.Sort {
 	case HeapSort(SSlice):
